@@ -1,5 +1,6 @@
 import Snel.Lemmas.Auth
 /-! Gate soundness, authorisation and revocation lemmas behind `Snel.Props.C13`. -/
+set_option linter.unusedSimpArgs false
 namespace Snel.Auth
 open Snel.Gen.C13
 
